@@ -1,0 +1,41 @@
+//go:build verif
+
+// Package verifhook holds the seams used by the deterministic-simulation harness (build tag "verif").
+package verifhook
+
+import (
+	"context"
+	"net/http"
+	"sync/atomic"
+)
+
+type yieldFn func(site string, obj interface{})
+type serveFn func(ctx context.Context, addr string, handler http.Handler) (bool, error)
+
+var (
+	yieldHook atomic.Value // yieldFn
+	serveHook atomic.Value // serveFn
+)
+
+// SetYield installs (or, with nil, removes) the function called at every Yield site.
+func SetYield(f func(site string, obj interface{})) { yieldHook.Store(yieldFn(f)) }
+
+// SetServeHTTP installs (or, with nil, removes) the function that may take over an HTTP listener.
+func SetServeHTTP(f func(ctx context.Context, addr string, handler http.Handler) (bool, error)) {
+	serveHook.Store(serveFn(f))
+}
+
+// Yield is a cooperative scheduling point: the simulator may park the calling goroutine here.
+func Yield(site string, obj interface{}) {
+	if f, _ := yieldHook.Load().(yieldFn); f != nil {
+		f(site, obj)
+	}
+}
+
+// ServeHTTP lets a simulator serve handler in place of a real listener.
+func ServeHTTP(ctx context.Context, addr string, handler http.Handler) (bool, error) {
+	if f, _ := serveHook.Load().(serveFn); f != nil {
+		return f(ctx, addr, handler)
+	}
+	return false, nil
+}
